@@ -151,7 +151,7 @@ def parse_terse(out):
 
 
 def run_kani(workdir, harnesses, target, timeout, extra=(), jobs=None, harness_timeout=None, exact=True):
-    terse = bool(jobs and len(harnesses) > 1)
+    terse = bool(jobs)
     cmd = ['cargo', 'kani', '-Z', 'function-contracts', '-Z', 'stubbing', '-Z', 'unstable-options', '--output-format', 'terse' if terse else 'regular']
     if exact:
         cmd.append('--exact')
@@ -301,7 +301,7 @@ def replay(d, repo):
         p = subprocess.run(['cargo', 'test', '--offline', '--lib', '-p', 'cfn-guard', h, '--', '--nocapture', '--test-threads', '1'],
                            cwd=os.path.join(work, 'guard'), env=env, stdout=subprocess.PIPE, stderr=subprocess.STDOUT, text=True)
         print(p.stdout[-4000:])
-        if 'panicked' in p.stdout or 'FAILED' in p.stdout:
+        if 'VERIF-ASSUME-FAILED' not in p.stdout and ('panicked' in p.stdout or 'FAILED' in p.stdout):
             print('REPLAY: the recorded input reproduces the failure on the real code')
             return 1
         print('REPLAY: the recorded input did not reproduce a failure natively')
